@@ -1,2 +1,164 @@
-// placeholder
-int vsim_baton_placeholder = 0;
+// See Baton.hh.  NO sanitizer instrumentation in this translation unit.
+#include <cerrno>
+#include <climits>
+#include <cstdint>
+#include <cstring>
+#include <linux/futex.h>
+#include <sys/syscall.h>
+#include <unistd.h>
+
+namespace
+{
+constexpr int kMax = 64;
+int g_n = 0;
+int g_current = -1;  // thread holding the baton
+int g_word[kMax];  // futex words: 1 = may run
+int g_done[kMax];
+std::uint64_t g_rng = 0;
+std::uint64_t g_trace = 0;
+std::uint64_t g_switches = 0;
+double g_yield_prob = 1.0;
+long g_shared[16];
+
+std::uint64_t next_rand()
+{
+    g_rng += 0x9e3779b97f4a7c15ull;
+    std::uint64_t z = g_rng;
+    z = (z ^ (z >> 30)) * 0xbf58476d1ce4e5b9ull;
+    z = (z ^ (z >> 27)) * 0x94d049bb133111ebull;
+    return z ^ (z >> 31);
+}
+
+void mix_trace(int id, char const* site)
+{
+    std::uint64_t h = g_trace ^ (0xcbf29ce484222325ull + id);
+    if (site)
+        for (char const* p = site; *p; ++p)
+        {
+            h ^= static_cast<unsigned char>(*p);
+            h *= 0x100000001b3ull;
+        }
+    h *= 0x100000001b3ull;
+    g_trace = h;
+}
+
+void futex_wait(int* addr, int val)
+{
+    syscall(SYS_futex, addr, FUTEX_WAIT_PRIVATE, val, nullptr, nullptr, 0);
+}
+void futex_wake(int* addr)
+{
+    syscall(SYS_futex, addr, FUTEX_WAKE_PRIVATE, INT_MAX, nullptr, nullptr, 0);
+}
+
+void park(int id)
+{
+    while (__atomic_load_n(&g_word[id], __ATOMIC_SEQ_CST) == 0)
+    {
+        futex_wait(&g_word[id], 0);
+    }
+}
+
+void grant(int id)
+{
+    g_current = id;
+    __atomic_store_n(&g_word[id], 1, __ATOMIC_SEQ_CST);
+    futex_wake(&g_word[id]);
+}
+
+int pick_next(int self, bool self_allowed)
+{
+    int cand[kMax];
+    int n = 0;
+    for (int i = 0; i < g_n; ++i)
+    {
+        if (g_done[i])
+            continue;
+        if (i == self && !self_allowed)
+            continue;
+        cand[n++] = i;
+    }
+    if (n == 0)
+        return -1;
+    return cand[next_rand() % n];
+}
+}  // namespace
+
+extern "C" {
+void vsim_baton_init(int nthreads, std::uint64_t seed, double yield_prob, int)
+{
+    g_n = nthreads > kMax ? kMax : nthreads;
+    g_rng = seed;
+    g_trace = 0;
+    g_switches = 0;
+    g_yield_prob = yield_prob;
+    g_current = -1;
+    std::memset(g_word, 0, sizeof(g_word));
+    std::memset(g_done, 0, sizeof(g_done));
+    std::memset(g_shared, 0, sizeof(g_shared));
+    // the first runnable thread is chosen now
+    int first = static_cast<int>(next_rand() % g_n);
+    g_current = first;
+    g_word[first] = 1;
+}
+
+void vsim_baton_begin(int id)
+{
+    park(id);
+}
+
+void vsim_baton_yield(int id, char const* site)
+{
+    if (g_n <= 1 || id < 0 || id >= g_n)
+        return;
+    // decide whether to pre-empt here
+    double u = (next_rand() >> 11) * (1.0 / 9007199254740992.0);
+    if (u >= g_yield_prob)
+        return;
+    int next = pick_next(id, true);
+    mix_trace(next, site);
+    if (next == id || next < 0)
+        return;
+    ++g_switches;
+    __atomic_store_n(&g_word[id], 0, __ATOMIC_SEQ_CST);
+    grant(next);
+    park(id);
+}
+
+void vsim_baton_end(int id)
+{
+    if (id < 0 || id >= g_n)
+        return;
+    g_done[id] = 1;
+    int next = pick_next(id, false);
+    mix_trace(next, "end");
+    if (next >= 0)
+    {
+        ++g_switches;
+        grant(next);
+    }
+    else
+    {
+        g_current = -1;
+    }
+}
+
+std::uint64_t vsim_baton_trace()
+{
+    return g_trace;
+}
+std::uint64_t vsim_baton_switches()
+{
+    return g_switches;
+}
+long vsim_baton_fetch_add(int which, long delta)
+{
+    long old = g_shared[which & 15];
+    g_shared[which & 15] = old + delta;
+    return old;
+}
+int vsim_baton_current()
+{
+    return g_current;
+}
+}
